@@ -2,8 +2,6 @@ package world
 
 import (
 	"fmt"
-	"sort"
-	"strings"
 
 	"verifsim/refmqtt"
 	"verifsim/refsn"
@@ -228,7 +226,7 @@ func oracleC12(v *View, vd *Verdict) {
 		lastG2B := int64(-1)
 		lastState := ""
 		connected := false
-		aliveBy := map[string]bool{} // client packet types consumed since the last gateway->broker write
+		relayable := false // since the last gateway->broker write the client sent something the gateway must relay
 		for _, e := range sv.Evs {
 			if e.Kind == EvEnd || e.Kind == EvShutdown || e.Kind == EvBFin || e.Kind == EvBClose || e.Kind == EvMqClose {
 				break
@@ -239,14 +237,12 @@ func oracleC12(v *View, vd *Verdict) {
 					return
 				}
 				if now-lastG2B > ka*3/2+timingSlack {
-					by := ""
-					if lastState == "active" {
-						var l []string
-						for k := range aliveBy {
-							l = append(l, k)
-						}
-						sort.Strings(l)
-						by = "/client-sent=" + strings.Join(l, "+")
+					// did the client send anything the gateway has to relay (in the state it was in)?
+					// If so the gap means a relay went missing; if not, the gateway simply does not
+					// speak to the broker on the client's behalf.
+					by := "/only-unrelayed-client-traffic"
+					if relayable {
+						by = "/relayable-client-traffic"
 					}
 					vd.Add("C12", "C12/gap/"+lastState+by, "session %s: no packet to the broker between %d and %d (%.1f s) with keep-alive %d s; state %s", sv.Name, lastG2B, now, float64(now-lastG2B)/1e9, w.ka, lastState)
 					lastG2B = now // report each gap once
@@ -256,7 +252,7 @@ func oracleC12(v *View, vd *Verdict) {
 			case EvG2B:
 				check(e.T)
 				lastG2B = e.T
-				aliveBy = map[string]bool{}
+				relayable = false
 				if e.MQ.Type == refmqtt.CONNECT {
 					connected = true
 				}
@@ -265,8 +261,11 @@ func oracleC12(v *View, vd *Verdict) {
 				}
 			case EvC2G:
 				check(e.T)
-				if e.SNErr == nil {
-					aliveBy[e.SN.Name()] = true
+				if e.SNErr == nil && w.st == stActive && !w.sleepReq {
+					switch e.SN.Type {
+					case refsn.PUBLISH, refsn.SUBSCRIBE, refsn.UNSUBSCRIBE, refsn.PINGREQ, refsn.PUBREL:
+						relayable = true
+					}
 				}
 			}
 			w.step(e)
